@@ -51,6 +51,8 @@ def run_single(case):
     try:
         obs, recs = dagcase.run_real(case, wd)
         viol = {}
+        if case.get('ext'):
+            return obs, obs, {'C03': dagmon.monitor_ext(case, recs[0])}
         for r in recs:
             v, _ = dagmon.monitor(dagmon.phase_case(case, r), r)
             for pid, vs in v.items():
